@@ -6,7 +6,7 @@ from .sorts import *      # noqa
 from . import types as Ty
 from . import front
 from .front import Unsupported
-from .state import tid
+from .state import tid, in_pre
 from .state import (SV, State, const_sv, truthy, shape, field_type, KIND, CLS, cls_in, new_list, new_dict,
                     new_exception, new_instance, new_list_from_seq, alloc, elem_type, int_of, str_of, val_of,
                     GHOSTS)
@@ -102,7 +102,7 @@ class Exec(ExecExpr):
                         raise Unsupported('**mapping whose keys are not statically known (line %d)' % n.lineno)
                     for k in keys:
                         vterm = c2.DV[va(star.term)][lit(k)]
-                        c2.assume(shape(c2, vterm, Ty.ANY, pre=c2.DV.eq(z3.Const('DV0', DVArr))))
+                        c2.assume(shape(c2, vterm, Ty.ANY, pre=in_pre(c2.DV.eq(z3.Const('DV0', DVArr)), va(star.term))))
                         kwargs[k] = SV(vterm, Ty.ANY)
                 if callee[0] == 'method':
                     _, kind, recv, mname = callee
@@ -157,6 +157,10 @@ class Exec(ExecExpr):
                 return self.apply_contract(st, c, ty.recv, args, kwargs, node)
             if nested is not None or (c is not None and c.inline):
                 return self.inline_call(st, q, ty.recv, args, kwargs, node, c)
+            if c is None and ty.recv is None and _auto_inlinable(q):
+                # a contract-less, loop-free helper of the package is verified as part of its caller (listed under
+                # inlined_callees in the evidence)
+                return self.inline_call(st, q, ty.recv, args, kwargs, node, None)
             raise Unsupported('no contract for callee %s (line %d)' % (q, getattr(node, 'lineno', 0)))
         if isinstance(ty, Ty.TCls) and ty.name:
             if ty.name in BUILTIN_FUNCS:        # bool(), int(), str(), float(), list(), dict() are classes
@@ -456,6 +460,24 @@ class Exec(ExecExpr):
             if isinstance(n, ast.FunctionDef) and n is not self.fi.node:
                 names.add(n.name)
         return names
+
+
+_AUTO_INLINE = {}
+
+
+def _auto_inlinable(q):
+    if q not in _AUTO_INLINE:
+        ok = False
+        if q.startswith(front.PKG):
+            try:
+                fi = front.find_function(q)
+                ok = not any(isinstance(n, (ast.For, ast.While, ast.ListComp, ast.DictComp, ast.SetComp, ast.GeneratorExp,
+                                            ast.Yield, ast.YieldFrom, ast.Lambda)) for n in ast.walk(fi.node)) \
+                    and (fi.node.end_lineno - fi.node.lineno) <= 40
+            except Exception:
+                ok = False
+        _AUTO_INLINE[q] = ok
+    return _AUTO_INLINE[q]
 
 
 def _prefix(obls, tag):
